@@ -34,6 +34,35 @@ func (c *Ctx) loopRecv(loop *ssa.Function) ssa.Instruction {
 			r = e.Instr
 		}
 	}
+	if r == nil {
+		// the frame loop may live in a private helper of the loop function
+		allInstrs(loop, func(in ssa.Instruction) {
+			if ci, ok := in.(ssa.CallInstruction); ok && in.Parent() != loop {
+				if k, isOp := c.W.carrierOp(ci); isOp && k == "carrier-recv" {
+					// a loop of the helper itself, not merely a helper called from a loop
+					seen := map[*ssa.BasicBlock]bool{}
+					work := append([]*ssa.BasicBlock{}, in.Block().Succs...)
+					self := false
+					for len(work) > 0 {
+						b := work[len(work)-1]
+						work = work[:len(work)-1]
+						if b == in.Block() {
+							self = true
+							break
+						}
+						if seen[b] {
+							continue
+						}
+						seen[b] = true
+						work = append(work, b.Succs...)
+					}
+					if self {
+						r = in
+					}
+				}
+			}
+		})
+	}
 	return r
 }
 
@@ -372,7 +401,7 @@ func ruleErrorSplit(c *Ctx, rule string) {
 		}
 		n++
 		key := "channel close called in " + w.Short(fn)
-		if fn != a.ClientLoop {
+		if fn != a.ClientLoop && regionRoot(fn) != a.ClientLoop {
 			c.fail(rule, key, w.At(s), "the whole channel is closed from "+w.Short(fn)+", which runs on the receive loop while handling one stream's frame ("+reach[fn].chain(w)+"): one RPC's error ends every RPC on the tunnel")
 			continue
 		}
